@@ -102,6 +102,13 @@ type sym struct {
 	Core   bool // member of the core alphabet (one flavour per class) used by the literal passes
 	Mini   bool // member of the reduced alphabet (messages that pass at least one signature verification)
 	Wire   []byte
+	// the fields the wire bytes were built from; Direct: the production decoder does not hand
+	// this message over (it rejects / dies on the malformed point — wire codec totality is C09),
+	// so the object round1 would have received is built from the parts with the same
+	// deserialisation calls the decoder uses (groupsig.DeserializeSign, model.MakeSignInfo)
+	Direct                bool
+	blockHash, dataHash   common.Hash
+	dataSign, signer, rnd []byte
 }
 
 type env struct {
@@ -141,7 +148,8 @@ func boot() {
 	if err := node.Boot(node.ForksAllOn, true); err != nil {
 		panic(fmt.Sprintf("node boot: %v", err))
 	}
-	logical.InitConsensus() // model.Param (threshold rule) as the node initialises it
+	logical.InitConsensus()  // model.Param (threshold rule) as the node initialises it
+	cnet.InitStateMachines() // installs the consensus/net package logger the decoder logs to
 	self := model.SelfMinerInfo{SecKey: detSk("self-miner-key")}
 	self.ID = detID("member-0")
 	self.PubKey = *groupsig.GeneratePubkey(self.SecKey)
@@ -249,7 +257,41 @@ func wire(blockHash, dataHash common.Hash, dataSign, member, rnd []byte) []byte 
 	return b
 }
 
+// w fills the wire bytes and their parts into s.
+func w(s sym, blockHash, dataHash common.Hash, dataSign, member, rnd []byte) sym {
+	s.Wire = wire(blockHash, dataHash, dataSign, member, rnd)
+	s.blockHash, s.dataHash, s.dataSign, s.signer, s.rnd = blockHash, dataHash, dataSign, member, rnd
+	return s
+}
+
+func (s *sym) message() *model.ConsensusVerifyMessage {
+	if !s.Direct {
+		m, err := cnet.UnMarshalConsensusVerifyMessage(s.Wire)
+		if err != nil || m == nil {
+			panic(fmt.Sprintf("harness: wire message %s does not decode: %v", s.Name, err))
+		}
+		return m
+	}
+	id := groupsig.ID{}
+	id.Deserialize(s.signer)
+	return &model.ConsensusVerifyMessage{
+		BlockHash:  s.blockHash,
+		RandomSign: *groupsig.DeserializeSign(s.rnd),
+		SignInfo:   model.MakeSignInfo(s.dataHash, *groupsig.DeserializeSign(s.dataSign), id, int32(common.ConsensusVersion)),
+		Id:         common.ToHex(common.Sha256(s.Wire)),
+	}
+}
+
 func (e *env) add(s sym) {
+	// does the production decoder hand this message over?
+	var m *model.ConsensusVerifyMessage
+	var err error
+	if p, _, _ := fw.Try(func() { m, err = cnet.UnMarshalConsensusVerifyMessage(s.Wire) }); p || err != nil || m == nil {
+		if s.Valid {
+			panic("harness: the honest message " + s.Name + " does not decode")
+		}
+		s.Direct = true
+	}
 	if _, dup := e.byName[s.Name]; dup {
 		panic("harness: duplicate symbol " + s.Name)
 	}
@@ -268,48 +310,48 @@ func (e *env) buildAlphabet() {
 		sk := e.sks[i]
 		nx, pv := (i+1)%e.n, (i+e.n-1)%e.n
 		// the honest verify message of member i (what round0.normalPieceVerify sends)
-		e.add(sym{Name: fmt.Sprintf("hon(%d)", i), Class: clsHon, Sender: i, Byz: -1, Valid: true, Core: true, Mini: true,
-			Wire: wire(H, H, sig(sk, H.Bytes()), id, sig(sk, R))})
+		e.add(w(sym{Name: fmt.Sprintf("hon(%d)", i), Class: clsHon, Sender: i, Byz: -1, Valid: true, Core: true, Mini: true},
+			H, H, sig(sk, H.Bytes()), id, sig(sk, R)))
 		// well-signed share over a different hash, filed under this block
-		e.add(sym{Name: fmt.Sprintf("otherhash(%d)", i), Class: clsOther, Sender: i, Byz: i, Core: true, Mini: true,
-			Wire: wire(H, H2, sig(sk, H2.Bytes()), id, sig(sk, R))})
+		e.add(w(sym{Name: fmt.Sprintf("otherhash(%d)", i), Class: clsOther, Sender: i, Byz: i, Core: true, Mini: true},
+			H, H2, sig(sk, H2.Bytes()), id, sig(sk, R)))
 		// claims this block's hash but the signature is the member's signature over the other hash
-		e.add(sym{Name: fmt.Sprintf("sigmismatch(%d)", i), Class: clsMismatch, Sender: i, Byz: i,
-			Wire: wire(H, H, sig(sk, H2.Bytes()), id, sig(sk, R))})
+		e.add(w(sym{Name: fmt.Sprintf("sigmismatch(%d)", i), Class: clsMismatch, Sender: i, Byz: i},
+			H, H, sig(sk, H2.Bytes()), id, sig(sk, R)))
 		// another member's (valid) shares replayed under the own id
-		e.add(sym{Name: fmt.Sprintf("replay(%d<-%d)", i, nx), Class: clsReplay, Sender: i, Byz: i, Core: true, Mini: true,
-			Wire: wire(H, H, sig(e.sks[nx], H.Bytes()), id, sig(e.sks[nx], R))})
+		e.add(w(sym{Name: fmt.Sprintf("replay(%d<-%d)", i, nx), Class: clsReplay, Sender: i, Byz: i, Core: true, Mini: true},
+			H, H, sig(e.sks[nx], H.Bytes()), id, sig(e.sks[nx], R)))
 		if pv != nx {
-			e.add(sym{Name: fmt.Sprintf("replay(%d<-%d)", i, pv), Class: clsReplay, Sender: i, Byz: i,
-				Wire: wire(H, H, sig(e.sks[pv], H.Bytes()), id, sig(e.sks[pv], R))})
+			e.add(w(sym{Name: fmt.Sprintf("replay(%d<-%d)", i, pv), Class: clsReplay, Sender: i, Byz: i},
+				H, H, sig(e.sks[pv], H.Bytes()), id, sig(e.sks[pv], R)))
 		}
 		// garbage block-signature points
-		e.add(sym{Name: fmt.Sprintf("garbagesig:offcurve(%d)", i), Class: clsGarbage, Sender: i, Byz: i, Core: true,
-			Wire: wire(H, H, offCurve, id, sig(sk, R))})
-		e.add(sym{Name: fmt.Sprintf("garbagesig:infinity(%d)", i), Class: clsGarbage, Sender: i, Byz: i,
-			Wire: wire(H, H, infinity, id, sig(sk, R))})
+		e.add(w(sym{Name: fmt.Sprintf("garbagesig:offcurve(%d)", i), Class: clsGarbage, Sender: i, Byz: i, Core: true},
+			H, H, offCurve, id, sig(sk, R)))
+		e.add(w(sym{Name: fmt.Sprintf("garbagesig:infinity(%d)", i), Class: clsGarbage, Sender: i, Byz: i},
+			H, H, infinity, id, sig(sk, R)))
 		// honest block share, bad beacon share
-		e.add(sym{Name: fmt.Sprintf("badbeacon:othermsg(%d)", i), Class: clsBeacon, Sender: i, Byz: i, Core: true, Mini: true,
-			Wire: wire(H, H, sig(sk, H.Bytes()), id, sig(sk, R2))})
-		e.add(sym{Name: fmt.Sprintf("badbeacon:othermember(%d)", i), Class: clsBeacon, Sender: i, Byz: i,
-			Wire: wire(H, H, sig(sk, H.Bytes()), id, sig(e.sks[nx], R))})
-		e.add(sym{Name: fmt.Sprintf("badbeacon:blockshare(%d)", i), Class: clsBeacon, Sender: i, Byz: i,
-			Wire: wire(H, H, sig(sk, H.Bytes()), id, sig(sk, H.Bytes()))})
-		e.add(sym{Name: fmt.Sprintf("badbeacon:offcurve(%d)", i), Class: clsBeacon, Sender: i, Byz: i,
-			Wire: wire(H, H, sig(sk, H.Bytes()), id, offCurve)})
-		e.add(sym{Name: fmt.Sprintf("badbeacon:infinity(%d)", i), Class: clsBeacon, Sender: i, Byz: i,
-			Wire: wire(H, H, sig(sk, H.Bytes()), id, infinity)})
-		e.add(sym{Name: fmt.Sprintf("badbeacon:empty(%d)", i), Class: clsBeacon, Sender: i, Byz: i,
-			Wire: wire(H, H, sig(sk, H.Bytes()), id, nil)})
+		e.add(w(sym{Name: fmt.Sprintf("badbeacon:othermsg(%d)", i), Class: clsBeacon, Sender: i, Byz: i, Core: true, Mini: true},
+			H, H, sig(sk, H.Bytes()), id, sig(sk, R2)))
+		e.add(w(sym{Name: fmt.Sprintf("badbeacon:othermember(%d)", i), Class: clsBeacon, Sender: i, Byz: i},
+			H, H, sig(sk, H.Bytes()), id, sig(e.sks[nx], R)))
+		e.add(w(sym{Name: fmt.Sprintf("badbeacon:blockshare(%d)", i), Class: clsBeacon, Sender: i, Byz: i},
+			H, H, sig(sk, H.Bytes()), id, sig(sk, H.Bytes())))
+		e.add(w(sym{Name: fmt.Sprintf("badbeacon:offcurve(%d)", i), Class: clsBeacon, Sender: i, Byz: i},
+			H, H, sig(sk, H.Bytes()), id, offCurve))
+		e.add(w(sym{Name: fmt.Sprintf("badbeacon:infinity(%d)", i), Class: clsBeacon, Sender: i, Byz: i},
+			H, H, sig(sk, H.Bytes()), id, infinity))
+		e.add(w(sym{Name: fmt.Sprintf("badbeacon:empty(%d)", i), Class: clsBeacon, Sender: i, Byz: i},
+			H, H, sig(sk, H.Bytes()), id, nil))
 	}
 	// senders that are not members of the group
 	xid, xsk := detID("outsider"), detSk("outsider-key")
-	e.add(sym{Name: "nonmember:ownkey", Class: clsNon, Sender: -1, Byz: -1, Core: true,
-		Wire: wire(H, H, sig(xsk, H.Bytes()), xid.Serialize(), sig(xsk, R))})
-	e.add(sym{Name: "nonmember:replay", Class: clsNon, Sender: -1, Byz: -1,
-		Wire: wire(H, H, sig(e.sks[1], H.Bytes()), xid.Serialize(), sig(e.sks[1], R))})
-	e.add(sym{Name: "nonmember:zeroid", Class: clsNon, Sender: -1, Byz: -1,
-		Wire: wire(H, H, sig(e.sks[1], H.Bytes()), make([]byte, 32), sig(e.sks[1], R))})
+	e.add(w(sym{Name: "nonmember:ownkey", Class: clsNon, Sender: -1, Byz: -1, Core: true},
+		H, H, sig(xsk, H.Bytes()), xid.Serialize(), sig(xsk, R)))
+	e.add(w(sym{Name: "nonmember:replay", Class: clsNon, Sender: -1, Byz: -1},
+		H, H, sig(e.sks[1], H.Bytes()), xid.Serialize(), sig(e.sks[1], R)))
+	e.add(w(sym{Name: "nonmember:zeroid", Class: clsNon, Sender: -1, Byz: -1},
+		H, H, sig(e.sks[1], H.Bytes()), make([]byte, 32), sig(e.sks[1], R)))
 }
 
 // ---------------------------------------------------------------------------------
@@ -355,14 +397,6 @@ func (e *env) fresh() *instance {
 		panic("harness: round1 could not be constructed")
 	}
 	return &instance{e: e, v: v, chain: ch}
-}
-
-func decode(w []byte) *model.ConsensusVerifyMessage {
-	m, err := cnet.UnMarshalConsensusVerifyMessage(w)
-	if err != nil || m == nil {
-		panic(fmt.Sprintf("harness: wire message does not decode: %v", err))
-	}
-	return m
 }
 
 func sharesStr(s []logical.VerifRoundShare) string {
@@ -526,7 +560,7 @@ func (e *env) exec(seq []int, party bool) result {
 		}
 		// implementation, round level
 		var uerr error
-		msg := decode(s.Wire)
+		msg := s.message()
 		if p, val, site := fw.Try(func() { uerr = ra.v.VerifRoundUpdate(msg) }); p {
 			res.f = &finding{Sig: "C15:panic:" + site, Part: "round", Step: step,
 				Msg: fmt.Sprintf("round1.Update panicked on message %d (%s): %v", step+1, s.Name, val)}
@@ -543,7 +577,7 @@ func (e *env) exec(seq []int, party bool) result {
 		k := ra.key()
 		// implementation, party level
 		if pa != nil {
-			msg2 := decode(s.Wire)
+			msg2 := s.message()
 			if p, val, site := fw.Try(func() { pa.v.VerifRoundPartyUpdate(msg2) }); p {
 				res.f = &finding{Sig: "C15:panic:" + site, Part: "party", Step: step,
 					Msg: fmt.Sprintf("party.Update panicked on message %d (%s): %v", step+1, s.Name, val)}
@@ -588,10 +622,10 @@ func (e *env) consequence(seq []int) string {
 	out := ""
 	p, val, _ := fw.Try(func() {
 		for _, si := range seq {
-			in.v.VerifRoundUpdate(decode(e.syms[si].Wire))
+			in.v.VerifRoundUpdate(e.syms[si].message())
 		}
 		for i := 0; i < e.n; i++ {
-			in.v.VerifRoundUpdate(decode(e.syms[e.byName[fmt.Sprintf("hon(%d)", i)]].Wire))
+			in.v.VerifRoundUpdate(e.syms[e.byName[fmt.Sprintf("hon(%d)", i)]].message())
 		}
 		if !in.v.VerifRoundCanProceed() {
 			out = "the round cannot proceed"
@@ -795,7 +829,7 @@ func plans(thorough bool) []plan {
 	return []plan{
 		{n: 3, bfsByz: 2, bfsDepth: 5, lit: []litPass{{false, 4, -1, 1}, {false, 3, 1, 2}, {true, 5, -1, 1}}},
 		{n: 4, bfsByz: 2, bfsDepth: 6},
-		{n: 5, bfsByz: 2, bfsDepth: 7, lit: []litPass{{false, 4, -1, 1}}},
+		{n: 5, bfsByz: 2, bfsDepth: 7, lit: []litPass{{false, 3, -1, 1}, {true, 4, -1, 1}}},
 	}
 }
 
@@ -814,6 +848,13 @@ func run(c *fw.Ctx) {
 		e := getEnv(p.n)
 		c.Note(fmt.Sprintf("n%d", p.n), map[string]interface{}{"k": e.k, "alphabet": len(e.syms),
 			"bfs_byzantine": p.bfsByz, "bfs_depth": p.bfsDepth, "literal_passes(mini,len,gtByz,maxByz)": fmt.Sprint(p.lit)})
+		var direct []string
+		for _, sy := range e.syms {
+			if sy.Direct {
+				direct = append(direct, sy.Name)
+			}
+		}
+		c.Note(fmt.Sprintf("n%d_messages_not_handed_over_by_the_wire_decoder_built_directly", p.n), direct)
 		for _, b := range subsets(p.n, p.bfsByz) {
 			idx++
 			if c.Mine(idx) {
